@@ -11,7 +11,7 @@ META = {
          "Trusted: rustc front end, factdump, the 30-line oracle. Declaration sets outside the witness families are covered only by the structural rules on the runtime.",
          "translation validation of macro expansion + HIR structural rules"),
  "C02": ("other", "§3 C02",
-         "Path-summary rules on Interface::run (path variable is root at entry and after every terminator path, parent header after ';', unchanged for common commands) and on compound_command_program_header (returned header = parent of returned node, start node root iff leading colon); sequential execution by await-in-place. The parsed call's terminated flag and header are tied to what parse consumed, `no call` only for an empty message (C02-F); the buffer discipline of process (one whole message per call of run) is evaluated here as well (C02-K). A unit's response is completed inside execute before the loop goes on (C02-C04X).",
+         "Path-summary rules on Interface::run (path variable is root at entry and after every terminator path, parent header after ';', unchanged for common commands) and on compound_command_program_header (returned header = parent of returned node, start node root iff leading colon); sequential execution by await-in-place. The parsed call's terminated flag and header are tied to what parse consumed, `no call` only for an empty message (C02-F); the buffer discipline of process (one whole message per call of run) is evaluated here as well (C02-K). A unit's response is completed inside execute before the loop goes on (C02-C04X). The emitted trie, whose nodes are the path context, is validated against the declarations on the witness families (C02-T/D).",
          "Trusted: pathsum. Decides the structural conditions on every path of the two functions, not the behaviour of concrete message sequences.",
          "path-summary dataflow over type-checked HIR"),
  "C03": ("other", "§3 C03",
@@ -19,7 +19,7 @@ META = {
          "Numeric exactness of core::num / core::str::parse is trusted.",
          "HIR structural rules + sibling cross-check + byte-class denotation"),
  "C04": ("other", "§3 C04",
-         "Format tables of every Response impl (decoded format templates, sentinel decision table, separators), string quoting, newline+flush discipline in execute, writer who-may-call and sibling agreement. The buffer discipline of process (a unit is handed to run once) is evaluated here as well (C04-K). Write impls: write_fmt passes the pieces on without an intermediate of bounded capacity.",
+         "Format tables of every Response impl (decoded format templates, sentinel decision table, separators), string quoting, newline+flush discipline in execute, writer who-may-call and sibling agreement. The buffer discipline of process (a unit is handed to run once) is evaluated here as well (C04-K). Write impls: write_fmt passes the pieces on without an intermediate of bounded capacity. On no path, the failing ones included, does a shipped writer remove or overwrite what it holds (C04-W receiver-ops).",
          "core::fmt Display output is trusted to decode to the same value.",
          "HIR structural rules + format-template decoding"),
  "C05": ("other", "§3 C05",
@@ -31,11 +31,11 @@ META = {
          "Decides structural conditions per path; the history-level equality follows by the argument in DESIGN.md.",
          "path-summary rules over HIR"),
  "C07": ("other", "§3 C07",
-         "Buffer discipline K1-K6 of process by linear normal forms of the offset updates on every path; compaction before overflow reset; await-in-place. Nothing but the transport's read and the compaction writes the command buffer (K8).",
+         "Buffer discipline K1-K6 of process by linear normal forms of the offset updates on every path; compaction before overflow reset; await-in-place. Nothing but the transport's read and the compaction writes the command buffer (K8). The shipped writers - process answers through one - append exactly what they are given and never remove anything (C07-C04W).",
          "Decides the buffer discipline, not equality of behaviour across chunkings as such.",
          "path summaries + linear normal forms"),
  "C08": ("other", "§3 C08",
-         "Byte-class denotation of string payload classes (all bytes but the delimiter), block taken by length only, Incomplete never masked on the way from a newline-transparent parser to run. The meaning of the parser combinators (satisfy, take_while, optional, tag) that the skeleton rules build on is read from their own bodies on every run (contract rule PR). Resumption of a message by process: run's Incomplete answer on every parse-error path; loss of the header path across a resumption is the recorded finding F9 (C08-R). Any further unit-to-unit local of run would be lost at a resumption too (run:resume-keeps-state).",
+         "Byte-class denotation of string payload classes (all bytes but the delimiter), block taken by length only, Incomplete never masked on the way from a newline-transparent parser to run. The meaning of the parser combinators (satisfy, take_while, optional, tag) that the skeleton rules build on is read from their own bodies on every run (contract rule PR). Resumption of a message by process: run's Incomplete answer on every parse-error path; loss of the header path across a resumption is the recorded finding F9 (C08-R). Any further unit-to-unit local of run would be lost at a resumption too (run:resume-keeps-state). A string or block recogniser rejects only where a sub-parser or conversion failed, never by a test of its own on the payload (C08-G).",
          "Trusted: bytecls evaluator, pathsum.",
          "byte-class denotation + error-kind flow over HIR"),
  "C09": ("proof", "§3 C09",
@@ -43,7 +43,7 @@ META = {
          "heapless::Deque is trusted to be a bounded deque.",
          "HIR/MIR callee-set and who-may-call rules + table comparison"),
  "C10": ("proof", "§3 C10",
-         "All clauses are structural and are decided for every stream and fault position on the single generic body of process: transport calls `.await?` unchanged, only error exits, response typestate (write+flush+clear before read). execute's output discipline (rule C04-X: terminator only after a successful query) is evaluated here as well. The slot rule of C01 (nothing executed, nothing written for a header in the wrong form) as C10-C01X; the buffer discipline as C10-K. Command forms declared by the library are bound to handlers without a response value (C10-B).",
+         "All clauses are structural and are decided for every stream and fault position on the single generic body of process: transport calls `.await?` unchanged, only error exits, response typestate (write+flush+clear before read). execute's output discipline (rule C04-X: terminator only after a successful query) is evaluated here as well. The slot rule of C01 (nothing executed, nothing written for a header in the wrong form) as C10-C01X; the buffer discipline as C10-K. Command forms declared by the library are bound to handlers without a response value (C10-B). The shipped writers never take anything away from the response buffer, also when a write fails (C10-C04W).",
          "Trusted: rustc HIR/typeck, factdump, pathsum.",
          "path-summary typestate over type-checked HIR"),
  "C11": ("other", "§3 C11",
